@@ -71,7 +71,7 @@ func (r *yieldRewriter) rewriteRanges(block *ast.BlockStmt) {
 					// >= 1.22 only, but no release, need test
 					if key, ok := r.keyTypingConstRange(n); ok {
 						// for i = range 3, the untyped constant has the type of i, not int
-						do(cstNewIntegerIterOf, X.Ident(key.Name), n.X)
+						do(cstNewIntegerIterOf, key, n.X)
 					} else {
 						do(cstNewIntegerIter, n.X)
 					}
@@ -100,19 +100,38 @@ func (r *yieldRewriter) rewriteRanges(block *ast.BlockStmt) {
 
 // for i = range N, N is a constant and i is a variable of an integer type other than int:
 // an untyped N is given the type of i
-func (r *yieldRewriter) keyTypingConstRange(n *ast.RangeStmt) (*ast.Ident, bool) {
-	key, ok := n.Key.(*ast.Ident)
-	if !ok || n.Tok != token.ASSIGN || isUnderline(key) {
+// returns an expr of the type of i which is free of effects: i itself, or T(0) if the key is an operand
+// like a[f()], s.f, *p (which must be evaluated once per iteration, by the assignment, and never in front of the loop)
+func (r *yieldRewriter) keyTypingConstRange(n *ast.RangeStmt) (ast.Expr, bool) {
+	if isNil(n.Key) || n.Tok != token.ASSIGN || isUnderline(n.Key) {
 		return nil, false
 	}
 	if tv := r.pkg.TypesInfo.Types[n.X]; tv.Value == nil {
 		return nil, false
 	}
-	keyTy := r.pkg.TypeOf(key)
+	keyTy := r.pkg.TypeOf(n.Key)
 	if isNil(keyTy) || types.Identical(keyTy, types.Typ[types.Int]) {
 		return nil, false
 	}
-	return key, true
+	if basic, ok := keyTy.Underlying().(*types.Basic); !ok || basic.Info()&types.IsInteger == 0 {
+		// e.g. var k any; for k = range 3, the constant has its default type int
+		return nil, false
+	}
+	if key, ok := n.Key.(*ast.Ident); ok {
+		return X.Ident(key.Name), true
+	}
+	var tyName string
+	switch ty := unalias(keyTy).(type) {
+	case *types.Basic:
+		tyName = ty.Name()
+	case *types.Named:
+		local := ty.Obj().Pkg() == r.pkg.Types && ty.TypeArgs().Len() == 0
+		r.assert(local, n.Key, "range over constant with key of type %s not supported", keyTy)
+		tyName = ty.Obj().Name()
+	default:
+		r.assert(false, n.Key, "range over constant with key of type %s not supported", keyTy)
+	}
+	return X.Call(X.Ident(tyName), &ast.BasicLit{Kind: token.INT, Value: "0"}), true
 }
 
 func (r *yieldRewriter) rewriteRangeToForIter(
